@@ -2,7 +2,7 @@
    [exact lemma] and Print Assumptions. *)
 From Coq Require Import String.
 From V Require Import Common.Base C18.Pieces C18.PiecesProofs C19.Metafile C19.MetafileProofs
-  C19.Json C19.JsonSpec C19.JsonProofs C19.Layout C19.LayoutProofs C19.SubstProofs C19.Doc C19.DocProofs.
+  C19.Json C19.JsonSpec C19.JsonProofs C19.Layout C19.LayoutProofs C19.SubstProofs C19.Doc C19.DocProofs C19.Scan C19.ScanProofs.
 
 (* accurateFinalByteCount is the length of what substituteFinalPaths produces,
    when both obtain their paths the same way (pathOf) *)
@@ -151,3 +151,38 @@ Theorem imports_resolve : forall (pathOf : Z -> Z -> bytes) (extra : list (bytes
   In (pathOf k j) (map fst (dedup_first [] (link_results pathOf extra chunks))).
 Proof. exact (@imports_resolve_all chunk). Qed.
 Print Assumptions imports_resolve.
+
+(* ---- which file an input's import names (processScannedFiles) ---- *)
+
+(* the dual-package re-pointing: a record whose secondary path was visited
+   finally denotes that file ... *)
+Theorem hazard_repoints_to_visited_secondary : forall visited r key j,
+  r_secondary r = Some key -> visited_index key visited = Some j -> repoint visited r = Some j.
+Proof. exact repoint_secondary. Qed.
+Print Assumptions hazard_repoints_to_visited_secondary.
+
+(* ... and the metafile names, for every import, the path of the file the
+   record FINALLY denotes (the index the linker follows), as a member "path"
+   of the corresponding element of inputs[f].imports *)
+Theorem input_import_path_is_final_target : forall paths visited self size records format attrs r j,
+  In r records -> final_target visited r = Some j ->
+  ii_path (import_of paths visited r) = paths j /\ ii_external (import_of paths visited r) = false /\
+  exists rest, In (JObj ((ju "path"%string, JStr (units (paths j))) :: rest))
+                  (imports_of_input (input_jv (scan_input paths visited self size records format attrs))).
+Proof.
+  exact (fun paths visited self size records format attrs r j Hin Ht =>
+    conj (proj1 (import_of_target paths visited r j Ht))
+      (conj (proj2 (import_of_target paths visited r j Ht))
+        (scan_input_lists_final_target paths visited self size records format attrs r j Hin Ht))).
+Qed.
+Print Assumptions input_import_path_is_final_target.
+
+(* if the files read into the bundle are closed under those final targets,
+   every listed import that is not external is a key of the inputs section *)
+Theorem input_imports_resolve : forall paths visited (files : list sfile),
+  (forall f r j, In f files -> In r (sf_records f) -> final_target visited r = Some j ->
+     In j (map sf_index files)) ->
+  forall i imp, In i (map (sf_input paths visited) files) -> In imp (in_imports i) ->
+    ii_external imp = false -> In (ii_path imp) (map in_path (map (sf_input paths visited) files)).
+Proof. exact inputs_closed_all. Qed.
+Print Assumptions input_imports_resolve.
